@@ -610,6 +610,9 @@ func (e *SpecEnv) selector(n *ast.SelectorExpr) (SV, types.Type) {
 				if p := c.eng.packageByName(id.Name, e.pkg); p != nil {
 					obj := p.Scope().Lookup(n.Sel.Name)
 					if obj == nil {
+						if g := c.eng.cs.Ghosts[p.Path()+"::"+n.Sel.Name]; g != nil {
+							return c.ghostRead(e.st, g), c.eng.specType(p, g.Type)
+						}
 						e.fail("package %s has no %s", id.Name, n.Sel.Name)
 					}
 					return e.object(obj)
@@ -666,6 +669,16 @@ func (e *SpecEnv) evalLoc(x ast.Expr) *Loc {
 	case *ast.ParenExpr:
 		return e.evalLoc(n.X)
 	case *ast.SelectorExpr:
+		// pkg.ghost
+		if id, ok := n.X.(*ast.Ident); ok {
+			if _, isVar := e.vars[id.Name]; !isVar && (e.fr == nil || e.fr.named[id.Name] == nil) {
+				if p := c.eng.packageByName(id.Name, e.pkg); p != nil {
+					if g := c.eng.cs.Ghosts[p.Path()+"::"+n.Sel.Name]; g != nil {
+						return &Loc{Prefix: "ghost$" + g.Pkg + "." + g.Name, Idx: IntLit(0), T: c.eng.specType(p, g.Type)}
+					}
+				}
+			}
+		}
 		v, t := e.eval(n.X)
 		path, ok := fieldPath(t, n.Sel.Name, e.pkg)
 		if !ok {
@@ -893,7 +906,7 @@ func (e *SpecEnv) callExpr(n *ast.CallExpr) (SV, types.Type) {
 		case "fresh":
 			v, t := e.eval(n.Args[0])
 			tm, _ := e.scalar(v, t)
-			return Sc{And(App(SBool, ">", tm, IntLit(0)), Not(c.isAllocated(e.old, tm)))}, tBool
+			return Sc{And(App(SBool, ">", tm, IntLit(0)), Not(c.isAllocated(e.old, tm)), c.isAllocated(e.st, tm))}, tBool
 		case "has":
 			// has(m, k): key k is in map m
 			mv, mt := e.eval(n.Args[0])
@@ -982,6 +995,10 @@ func (e *SpecEnv) callExpr(n *ast.CallExpr) (SV, types.Type) {
 		if m, ok := obj.(*types.Func); ok {
 			fn := c.eng.prog.FuncValue(m)
 			if fn == nil {
+				if iv, isIf := recv.(If); isIf && m.Name() == "Error" && len(n.Args) == 0 {
+					// error text of an interface value (same uninterpreted function as the code's err.Error())
+					return Sc{c.uf("errtext", SStr, iv.Tag, iv.ID)}, types.Typ[types.String]
+				}
 				e.fail("method %s has no SSA function", m.FullName())
 			}
 			return e.callGo(fn, &bound{recv, rt}, n.Args)
@@ -1033,6 +1050,10 @@ func (e *SpecEnv) callGo(fn *ssa.Function, recv *bound, args []ast.Expr) (SV, ty
 		e.fail("call to function without SSA body in spec")
 	}
 	if c.vc.quant > 0 {
+		// library functions that are functions of their arguments can be used anywhere
+		if !c.eng.inModule(fn) && c.eng.isPureExtern(fn.String()) {
+			return e.pureCallInSpec(fn, recv, args)
+		}
 		e.fail("call to Go function %s inside a quantifier is not supported", fn.Name())
 	}
 	var argv []SV
@@ -1240,9 +1261,14 @@ func (e *SpecEnv) quantifier(kind string, n *ast.CallExpr) Term {
 	ne.vars[id.Name] = bound{bvv, vt}
 	c.vc.quant++
 	c.vc.noName++
-	body := ne.evalBool(n.Args[len(n.Args)-1])
-	c.vc.noName--
-	c.vc.quant--
+	var body Term
+	func() {
+		defer func() {
+			c.vc.noName--
+			c.vc.quant--
+		}()
+		body = ne.evalBool(n.Args[len(n.Args)-1])
+	}()
 	if kind == "forall" {
 		inner := Implies(guard, body).S
 		if pats := selectPatterns(inner, bv); pats != "" && len(n.Args) == 4 {
@@ -1484,4 +1510,45 @@ func specFuncPatterns(body, bv string) string {
 		i = j + 6
 	}
 	return strings.Join(pats, " ")
+}
+
+// pureCallInSpec: application of a deterministic library function as an uninterpreted function
+// (same symbol as the one used when the code calls it), usable inside quantifier bodies.
+func (e *SpecEnv) pureCallInSpec(fn *ssa.Function, recv *bound, args []ast.Expr) (SV, types.Type) {
+	c := e.c
+	sig := fn.Signature
+	var ts []Term
+	add := func(v SV, t types.Type, want types.Type) {
+		if k, ok := v.(Kv); ok {
+			ts = append(ts, e.constTo(k, c.scalarSort(want), want))
+			return
+		}
+		switch x := v.(type) {
+		case Sc:
+			ts = append(ts, x.T)
+		case Sl:
+			ts = append(ts, x.Arr, x.Off, x.Len)
+		case If:
+			ts = append(ts, x.Tag, x.ID)
+		default:
+			e.fail("unsupported argument in call of %s inside a quantifier", fn.Name())
+		}
+	}
+	if recv != nil {
+		add(recv.v, recv.t, sig.Recv().Type())
+	}
+	for i, a := range args {
+		v, t := e.eval(a)
+		add(v, t, sig.Params().At(i).Type())
+	}
+	if sig.Results().Len() != 1 {
+		e.fail("call of %s inside a quantifier: single result expected", fn.Name())
+	}
+	rt := sig.Results().At(0).Type()
+	rs := c.scalarSort(rt)
+	if rs == "" {
+		e.fail("call of %s inside a quantifier: scalar result expected", fn.Name())
+	}
+	c.trusted["extern-pure: "+fn.String()+" (deterministic function of its arguments)"] = true
+	return Sc{c.uf("ext$"+fn.String(), rs, ts...)}, rt
 }
